@@ -57,6 +57,7 @@ func checkC01(c *Ctx) {
 	checkStyleCacheReads(c, p, "C01-R9")
 	c08Width(c, p, "C01-R11")
 	checkDrawCellWidth(c, p, drawCell, "C01-R10")
+	checkResolvedStyle(c, p, drawCell, "C01-R10")
 	payload := callsIn(drawCell, func(n string, _ *ssa.CallCommon) bool { return strings.HasSuffix(n, "tScreen).writeString") })
 	if len(payload) != 1 {
 		c.Undecided("C01-R1", "drawCell:payload", p.pos(drawCell.Pos()), fmt.Sprintf("%d payload writes found, expected 1", len(payload)))
